@@ -153,7 +153,8 @@ def main():
         ids = set(a.only.split(','))
         ms = [m for m in ms if m['id'] in ids]
     if a.property:
-        ms = [m for m in ms if a.property in m['properties']]
+        # run only that property's rules (neutral corpus entries are otherwise checked against every property)
+        ms = [dict(m, properties=[a.property]) for m in ms if a.property in m['properties']]
     bad = 0
     with ProcessPoolExecutor(max_workers=a.jobs) as ex:
         for mid, status, err, out in ex.map(run_one, ms):
